@@ -535,6 +535,12 @@ class TaskStateMachine(object):
         if ac_ex_event.status in requirements:
             # Make a copy of the items and remove current item under evaluation.
             staged_task = workflow_state.get_staged_task(task_id, task_route)
+
+            # The task is no longer staged if it is already completed. In this case, a late
+            # report for one of its items has no other items to be evaluated against.
+            if not staged_task or "items" not in staged_task:
+                return action_event
+
             items = json_util.deepcopy(staged_task["items"])
             del items[ac_ex_event.item_id]
             items_status = [item.get("status", statuses.UNSET) for item in items]
